@@ -7,6 +7,7 @@ package engine
 // and comparison of the real engine's SELECT * against the model.
 
 import (
+	"fmt"
 	"github.com/mk6i/mkdb/sql"
 	"github.com/mk6i/mkdb/storage"
 )
@@ -555,6 +556,7 @@ func verifConcreteInsert(t *verifTable, from, n int) verifStmt {
 //	8: t with 30 rows (7 leaves)   9: t with 40 rows and u with 20 rows
 //	10: six tables t,u,v,w,x,y (3 rows / 1 row each): the next CREATE TABLE splits the sys_pages leaf
 //	11: t with 241 rows (about 60 leaves); the next row ids are 255, 256, 257
+//	12: twelve tables t, t1..t11 of ten rows each
 func verifPrefixStmts(sc int) []verifStmt {
 	tt := &verifTable{name: "t", cols: verifStdCols}
 	tu := &verifTable{name: "u", cols: verifStdCols}
@@ -601,13 +603,19 @@ func verifPrefixStmts(sc int) []verifStmt {
 		}
 	case 11: // 241 rows (about 60 leaves under one root); the row id counter stands at 254, so the next two ids cross a multiple of 256
 		out = append(out, verifConcreteInsert(tt, 0, 241))
+	case 12: // twelve tables of ten rows each: every table has an inner root and two leaves, the catalog spans several pages
+		out = append(out, verifConcreteInsert(tt, 0, 10))
+		for i := 1; i < 12; i++ {
+			n := fmt.Sprintf("t%d", i)
+			out = append(out, verifGenCreate(n), verifConcreteInsert(&verifTable{name: n, cols: verifStdCols}, 100*i, 10))
+		}
 	default:
 		panic("unknown prefix scenario")
 	}
 	return out
 }
 
-const verifNumPrefixes = 12
+const verifNumPrefixes = 13
 
 // verifNewDB creates the data directory and database "db" and opens it with the timer off.
 func verifNewDB(cacheSize int) *storage.RelationService {
